@@ -4,7 +4,9 @@ A case is a *history* of real CLI runs over one generated variant file (mixed `0
 optional pre-existing PS/HP phase, decoy multi-ALT / duplicate records with phase of their own):
 
   (plus: generator-written phased VCFs with interleaved / nested phase sets as the phase input of run Q and as in-process
-   input of the real `phased_blocks_as_reads` — whatshap's own outputs only ever have contiguous sets)
+   input of the real `phased_blocks_as_reads` — whatshap's own outputs only ever have contiguous sets; stream `stack`:
+   1-4 unrelated samples in one file, per sample 2 .. k (+3) mutually overlapping sets, k = --internal-downsampling given or
+   the default 15: which sets have to come back is decided by `set_depths` from k and the spans of the sets)
 
   A = phase(in, tag1)   B = phase(in, tag2)   C = phase(A, tag2 [, --sample subset] [, --chromosome first])   U = unphase(C)
   D = phase(U, tag1)    E = phase(C, tag1)    Q = phase(in, phase input = A only)            (tag2 = the other tag)
@@ -12,7 +14,7 @@ optional pre-existing PS/HP phase, decoy multi-ALT / duplicate records with phas
 File-level stream (in-process, `run_file_case`): whole multi-sample / multi-chromosome files through the real reader
 (== Lean `c09.readfile` == independent decoder), the real PhasedInputReader (== `c09.phaseinput`) and the real
 PhasedVcfWriter.write with arbitrary super-reads and both values of remove_existing_phasing (== `c09.writefile` / `c09.writex`,
-plus the property oracle on the output).
+plus the property oracle on the output).  Lean `c09.fits` (Spec/C09Cap.lean) == `set_depths` on every pseudo-read run.
 
 Cross-contig layouts (`harness/gen/c09_layout.py`, all three streams, about half of the multi-contig cases): the contigs share
 their sites (same positions / identical copies incl. reads) and / or contig i+1 is shifted so that its first (second) phasable
@@ -24,14 +26,14 @@ Oracle on every phase output, per target sample (independent decoder on the pysa
 phase from the trace): every decodable phase statement is the one this run wrote and every written one decodes
 to itself (round trip + no stale phase + never both encodings in one call); A and B decode equally (PS ≡ HP);
 whatshap's own reader accepts the output; Q reproduces every phase set of A with >= 2 variants up to swapping the
-haplotypes.  Correspondence: whatshap's `VcfReader(phases=True)` == Lean `c09.read` == independent decoder on the
+haplotypes, as far as it fits under the coverage cap per sample (at most k sets over any position of its span).  Correspondence: whatshap's `VcfReader(phases=True)` == Lean `c09.read` == independent decoder on the
 records the reader accepts; the pseudo reads of run Q (trace) == Lean `c09.reads`.
 """
 import json, os, shutil
 
 from harness.gen import sim
 from harness.gen import c04_records as R
-from harness.gen.c09_hist import gen_case, build_inputs, gen_interleaved_case, build_interleaved
+from harness.gen.c09_hist import gen_case, build_inputs, gen_interleaved_case, build_interleaved, gen_stack_case, DEFAULT_CAP
 from harness.gen.c09_file import gen_file_case, build_file
 from harness.gen import c09_fileops as F
 from harness.gen import c09_layout as LAY
@@ -43,7 +45,11 @@ RULE = ("one history of 6 CLI runs (phase with PS, phase with HP, re-phase of th
         "variants; distinct = distinct (generator seed, options). Additionally generator-written phase inputs (PS or HP encoded, "
         "1-3 samples, 2-3 phase sets per sample laid out interleaved / nested / contiguous): the real phased_blocks_as_reads "
         "in-process, and run Q on them; non-trivial there: a multi-variant set has a member of another multi-variant set "
-        "between two of its members. File-level stream (in-process): one variant file and 1-2 phase files over 1-3 contigs and "
+        "between two of its members. Stream `stack`: 1-4 unrelated samples in one file, per sample 1-2 groups of m mutually "
+        "overlapping sets, m from 2 to the coverage cap k (and up to k+3), k = 15 (option not given) or --internal-downsampling "
+        "2..15, both tags, both encodings; non-trivial there: a set that at least one other set overlaps has to be reproduced "
+        "(key Q-stack), and: two samples of the file each carry a set that more than k/2 sets overlap (Q-stack-multi). Run Q of "
+        "the histories with the default cap or an explicit one (1..16). File-level stream (in-process): one variant file and 1-2 phase files over 1-3 contigs and "
         "samples (encodings per file / contig / sample, malformed HP, other ploidies, PQ, skipped and duplicate records, split "
         "contigs, missing samples): the real VcfReader(phases=True) on whole files, the real PhasedInputReader and the real "
         "PhasedVcfWriter.write with arbitrary super-reads, target / chromosome subsets and both values of "
@@ -61,9 +67,11 @@ MANIFEST = dict(
          "state (reader_rows_sorted, reader_phase_is_genotype_order), reader after writer on sorted chromosomes with duplicate "
          "positions and --only-snvs and on whole files (read_written_chrom, read_written_file), the chromosome loop "
          "(rephase_file_no_stale_phase), PhasedInputReader (phase_input_reader_reads) and the chain phase-input file -> reader -> "
-         "pseudo reads -> solver (phase_input_reproduces_sets)",
+         "pseudo reads -> solver (phase_input_reproduces_sets), whose hypothesis 'the pseudo reads are selected' holds for every set "
+         "that fits under the per-sample coverage cap in a model of one selection pass with arbitrary pop order "
+         "(fitting_set_selected, cap_per_run_witness)",
     design_ref="DESIGN.md §5 C09, §6 F4",
-    note="trusted: Lean kernel; hand-written model (differential: quick 8 histories = 48 CLI runs, thorough 60); the HP text "
+    note="trusted: Lean kernel; hand-written model (differential: quick 8 histories = 48 CLI runs + 14 pseudo-read runs on generator-written phase inputs, thorough 60 + 140); the HP text "
          "codec and htslib parsing are in the harness. F4 (a: old encoding kept when re-phasing with the other tag, "
          "b: _set_HP assumes sorted GT) and F21 (HP written as NUL byte when no sample of a record has an HP value) are "
          "genuine defects of /repo: reported until fixes/F4.patch is applied. Pseudo-read reproduction is checked on "
@@ -71,7 +79,9 @@ MANIFEST = dict(
     technique="Lean 4 proof on record-level codec/writer model + differential correspondence on CLI histories",
 )
 ASSUMPTIONS = [
-    "phase sets of the pseudo-read run fit under the coverage cap (checked per case: at most 7 blocks per sample and chromosome)",
+    "a phase set of the pseudo-read run 'fits under the coverage cap' when at most k multi-variant sets (itself included) span any "
+    "one position of its span, k = --internal-downsampling (15 if not given), per sample (unrelated samples are phased one by "
+    "one); decided by the oracle from k and the sets of the phase input, not from the trace",
     "the trace hook reports the super-reads and components that `PhasedVcfWriter.write` received",
     "htslib/pysam parsing, the HP text codec and the float -> int conversion of PQ are harness glue (typed values in the model)",
     "on a chromosome that --chromosome does not request no sample is a target: the records must be unchanged there",
@@ -187,7 +197,7 @@ class Hist:
         self.fails.append(key)
         self.ctx.fail(f"[{step}] {what}", self.case, key=key)
 
-    def phase(self, name, variant_vcf, phase_inputs, tag, fa, samples=None, chroms=None):
+    def phase(self, name, variant_vcf, phase_inputs, tag, fa, samples=None, chroms=None, extra=()):
         o = self.opts
         out = os.path.join(self.d, name + ".vcf")
         a = ["phase", "-o", out, "--tag", tag]
@@ -202,6 +212,7 @@ class Hist:
             a += ["--sample", s]
         for c in chroms or []:
             a += ["--chromosome", c]
+        a += list(extra)
         rc, so, se, trace = R.run_whatshap(self.ctx, a + [variant_vcf] + phase_inputs, trace=os.path.join(self.d, name + ".trace"))
         self.ctx.evaluated()
         if rc != 0:
@@ -381,35 +392,81 @@ def run_case(ctx, case, n):
                        "history-differs", "D")
     # the phased VCF as the only phase input
     if A and decA is not None and not o["distrust"]:
-        Q = h.phase("Q", vcf, [A["out"]], tag1, fa)
+        qk = o.get("q_k")
+        ctx.dist("hist_Q_cap", "default" if qk is None else min(qk, 5))
+        Q = h.phase("Q", vcf, [A["out"]], tag1, fa, extra=[] if qk is None else ["--internal-downsampling", str(qk)])
         decQ = h.check_output(Q, samples) if Q else None
         if decQ is not None:
-            check_reproduction(h, {s: blocks_of(decA[s]) for s in samples}, decQ, samples, len(sc.contigs), "Q")
+            check_reproduction(h, {s: blocks_of(decA[s]) for s in samples}, decQ, samples, DEFAULT_CAP if qk is None else qk, "Q")
             check_pseudo_reads(ctx, case, A["out"], Q["trace"], samples, o["only_snvs"], vcf)
     ctx.sample({"case": case, "fails": h.fails, "blocks_A": {s: len(blocks_of(decA[s])) for s in samples} if decA else None})
     shutil.rmtree(d, ignore_errors=True)
 
 
-def check_reproduction(h, sets, decQ, samples, n_contigs, step):
+def set_depths(sets):
+    """{set key: the largest number of multi-variant sets (the set itself included) that span one position within the span of
+    the set}.  sets: {key: {(chrom, pos): alleles}}, every set on one chromosome.  A pseudo-read run has one read per phase set
+    (and its complement) reaching from the first to the last member; read selection admits a read as long as fewer than `cap`
+    selected reads lie over each position of its span, and the first read of a set only ever competes with reads of OTHER sets.
+    So a set whose depth is at most the cap fits under it whatever the selection order is; that is the property's "as long as
+    the sets fit under the coverage cap", decided from the sets alone"""
+    iv = {}
+    for b, members in sets.items():
+        if len(members) >= 2:
+            ks = sorted(members)
+            iv[b] = (ks[0][0], ks[0][1], ks[-1][1])
+    out = {}
+    for b, (c, lo, hi) in iv.items():
+        # the depth over [lo, hi] is largest at lo or where another set starts
+        points = [lo] + [l2 for (c2, l2, h2) in iv.values() if c2 == c and lo <= l2 <= hi]
+        out[b] = max(sum(1 for (c2, l2, h2) in iv.values() if c2 == c and l2 <= p <= h2) for p in points)
+    return out
+
+
+def check_reproduction(h, sets, decQ, samples, cap, step):
     """every phase set of the phase input with >= 2 shared heterozygous variants is one phase set of the output, with the
-    same haplotypes up to exchanging them.  sets: {sample: {block: {(chrom,pos): alleles}}}"""
+    same haplotypes up to exchanging them - as far as it fits under the coverage cap per sample (`cap` = k of
+    --internal-downsampling, 15 if not given: unrelated samples are phased one by one, each under the full cap); what fits is
+    decided by `set_depths`, not by what the run selected.  sets: {sample: {block: {(chrom,pos): alleles}}}.
+    Returns {sample: (largest depth of a set that has to be reproduced, largest depth at all)}"""
+    info = {}
+    reqs, meta = [], []
     for s in samples:
-        if len(sets[s]) > 7 * max(1, n_contigs):
-            h.ctx.observe("pseudo-read check skipped: too many blocks for the coverage cap")
-            continue
+        depth = set_depths(sets[s])
+        info[s] = (max([d for d in depth.values() if d <= cap], default=0), max(depth.values(), default=0))
+        # the same decision by the executable Lean spec (Spec/C09Cap.lean: depth over ALL member positions; theorem
+        # Props.C09.fitting_set_selected: a set that fits has a read selected in any pop order)
+        for chrom in sorted({b[0] for b in depth}):
+            keys = sorted(b for b in depth if b[0] == chrom)
+            reqs.append({"op": "c09.fits", "cap": cap, "ps": sorted(k[1] for b in keys for k in sets[s][b]),
+                         "spans": [[min(k[1] for k in sets[s][b]), max(k[1] for k in sets[s][b])] for b in keys]})
+            meta.append((s, [depth[b] for b in keys]))
+    for (s, dep), ans in zip(meta, h.ctx.model.ask_many(reqs) if reqs else []):
+        want = [{"depth": d, "fits": d <= cap} for d in dep]
+        if ans != want:
+            h.ctx.disagree("c09.fits (set_depths of the oracle vs Spec/C09Cap)", h.case, want[:8], ans if not isinstance(ans, list) else ans[:8])
+    for s in samples:
+        depth = set_depths(sets[s])
         for b, members in sets[s].items():
             if len(members) < 2:
                 continue
+            if depth[b] > cap:
+                h.ctx.observe("pseudo-read check: a phase set overlaps more sets than the coverage cap admits (not demanded)")
+                continue
             got = {k: decQ[s].get(k) for k in members}
             if any(v is None for v in got.values()) or len({v[0] for v in got.values()}) != 1:
-                h.fail(f"pseudo reads: phase set {b} of sample {s} ({sorted(k[1] + 1 for k in members)}) is not reproduced as one phase set: {got}",
-                       "pseudo-set", step)
+                miss = sorted(k[1] + 1 for k in members if got[k] is None)
+                h.fail(f"pseudo reads: phase set {b} of sample {s} ({sorted(k[1] + 1 for k in members)}) is not reproduced as one phase set "
+                       f"although at most {depth[b]} sets overlap anywhere in its span and the coverage cap per sample is {cap} "
+                       f"({len(samples)} unrelated samples in the file); unphased in the output: POS {miss}; decoded: "
+                       f"{dict(list(got.items())[:6])}", "pseudo-set", step)
                 break
             same = all(got[k][1] == members[k] for k in members)
             swap = all(got[k][1] == tuple(reversed(members[k])) for k in members)
             if not (same or swap):
                 h.fail(f"pseudo reads: haplotypes of phase set {b} of sample {s} differ beyond a swap: {members} vs {got}", "pseudo-hap", step)
                 break
+    return info
 
 
 def pseudo_rows(rin, rp, chrom, si, only_snvs):
@@ -551,7 +608,24 @@ def run_interleaved(ctx, case, n):
                         for pos, a in rd:
                             sets[s].setdefault((chrom, b), {}).setdefault((chrom, pos), [None, None])[i] = a
                 sets[s] = {b: {k: tuple(v) for k, v in m.items()} for b, m in sets[s].items()}
-            check_reproduction(h, sets, decQ, samples, case["n_contigs"], "Q")
+            cap = DEFAULT_CAP if case.get("k") is None else case["k"]
+            info = check_reproduction(h, sets, decQ, samples, cap, "Q")
+            if case["pattern"] == "stack":
+                dem = max(v[0] for v in info.values())
+                ctx.dist("stack_cap", "default" if case.get("k") is None else ("k<=4" if cap <= 4 else "k<=8" if cap <= 8 else "k>8"))
+                ctx.dist("stack_n_samples", len(samples))
+                ctx.dist("stack_demanded_depth_vs_cap", "none" if not dem else "at-cap" if dem == cap else "cap-1" if dem == cap - 1 else
+                         "above-cap/2" if 2 * dem > cap else "low")
+                ctx.dist("stack_beyond_cap", any(v[1] > cap for v in info.values()))
+                # more multi-variant sets on a chromosome than the cap, and every one of them has to be reproduced
+                many = any(sum(1 for (c, _), m in sets[s_].items() if c == chrom and len(m) >= 2) > cap and info[s_][1] <= cap
+                           for s_ in samples for chrom in {c for c, _ in sets[s_]})
+                ctx.dist("stack_more_sets_than_cap_all_fit", many)
+                if dem >= 2:
+                    ctx.nontrivial(("Q-stack", case["gen_seed"]))
+                # the cap is per sample: a sample's sets fit or not whatever the other samples of the file carry
+                if len(samples) >= 2 and sum(1 for v in info.values() if 2 * v[0] > cap) >= 2:
+                    ctx.nontrivial(("Q-stack-multi", case["gen_seed"]))
             check_pseudo_reads(ctx, case, P, Q["trace"], samples, case["only_snvs"], V, fail=fail)
             if any(interleaved(pseudo_rows(rin, rp, c, si, case["only_snvs"])) for si in range(len(samples)) for c in {r["chrom"] for r in rp}):
                 ctx.nontrivial(("Q-interleaved", case["gen_seed"]))
@@ -562,6 +636,8 @@ def run_interleaved(ctx, case, n):
 def phase_q(h, case, V, P):
     out = os.path.join(h.d, "Q.vcf")
     a = ["phase", "-o", out, "--no-reference", "--tag", case["tag"]] + (["--only-snvs"] if case["only_snvs"] else [])
+    if case.get("k") is not None:
+        a += ["--internal-downsampling", str(case["k"])]
     rc, so, se, trace = R.run_whatshap(h.ctx, a + [V, P], trace=os.path.join(h.d, "Q.trace"))
     h.ctx.evaluated()
     if rc != 0:
@@ -902,7 +978,7 @@ def run(ctx):
         {"interleaved": run_interleaved, "file": run_file_case, "haplotagphase": run_haplotagphase_case}.get(c.get("kind"), run_case)(ctx, c, n); n += 1
     if ctx.replay:
         return
-    streams = os.environ.get("C09_STREAMS", "hist,inter,table,file,htp").split(",")     # development aid: run a subset of the streams
+    streams = os.environ.get("C09_STREAMS", "hist,inter,table,stack,file,htp").split(",")     # development aid: run a subset of the streams
     for _ in range((8 if ctx.quick else 60) * ctx.scale if "hist" in streams else 0):
         run_case(ctx, gen_case(ctx.rng, scale=1 if ctx.quick else 2), n); n += 1
     # generator-written phase inputs with interleaved / nested phase sets: run Q + in-process pseudo reads
@@ -910,6 +986,10 @@ def run(ctx):
         run_interleaved(ctx, gen_interleaved_case(ctx.rng), n); n += 1
     for _ in range((30 if ctx.quick else 600) * ctx.scale if "table" in streams else 0):
         run_interleaved(ctx, gen_interleaved_case(ctx.rng, cli=False), n); n += 1
+    # several unrelated samples in one file, per sample 2 .. cap (and a few more) mutually overlapping phase sets, default and
+    # explicit --internal-downsampling: run Q + in-process pseudo reads
+    for _ in range((8 if ctx.quick else 80) * ctx.scale if "stack" in streams else 0):
+        run_interleaved(ctx, gen_stack_case(ctx.rng, quick=ctx.quick), n); n += 1
     for _ in range((80 if ctx.quick else 2500) * ctx.scale if "file" in streams else 0):
         run_file_case(ctx, gen_file_case(ctx.rng, ctx.quick), n); n += 1
     for k in range((2 if ctx.quick else 20) * ctx.scale if "htp" in streams else 0):
